@@ -1,53 +1,3 @@
+"""Hook commits in /repo and reasons for unclaimed properties (per-property texts live in props.d/)."""
 HOOK_COMMITS = ["4e6fe67", "2b7356b"]
 NOT_YET = {}
-META = {
-    "C01": {
-        "text": "Skeleton theorems (regenerated effect order of AssetMap::{get,insert,contains_key} of both maps, load_entry, add_asset, get_cached_entry_inner, _get_or_insert, add_any: each map op is one lock scope, insert is entry().or_insert() under one write lock) reduce every interleaving of any number of threads to a sequence of atomic get/insert/contains steps; over ALL such sequences on the abstract map (to which the sharded map refines for every seed and shard count): presence and the stored cell never change once set, all handles reported for a key are equal, the first publish wins and every racer gets the winner, every reported handle is still stored at the end of the phase; phases between removals.",
-        "design_ref": "DESIGN.md §6 C01",
-        "note": "Partial: Box address stability and soundness of the lifetime extension are assumed (addr is a field of the model cell); lock implementations assumed. Tie: Gen/Skel.lean regenerated each run (lock-scope or or_insert changes break the rfl equalities) + free-running racing threads with forced simultaneous misses and unrelated growth + sequential handle-identity correspondence.",
-        "technique": "Lean 4 proof over all op sequences + skeleton extraction + differential/stress correspondence",
-    },
-    "C02": {
-        "text": "Refinement theorems: the sharded map (any hasher/seed, any shard count, shard index expressions regenerated from get_shard/get_shard_mut) and the flat map both return, on EVERY operation sequence, what the abstract map Key -> Option Cell returns; hence the front-ends agree. One-line laws of the abstract map (independence of other keys, insert never overwrites, remove/take exact, clear empties) and their lift to the cache front-end model: hits change nothing, get_or_insert keeps/adds exactly, lookups are read-only, every evaluation of every loader program only adds entries (eval_mono, by induction over fuel and all Prog constructors), a failed load / load_owned adds nothing of its own, a successful load caches.",
-        "design_ref": "DESIGN.md §6 C02",
-        "note": "Trusted: Lean kernel; amx (shard index/count expressions, entry/record conditions); eval as transcription of anycache.rs. HashMap modelled as keep-first association list. Tie: regenerated Gen/Tables.lean + `cache` engine diffed op-by-op against the model on 4 front-ends x 3 constructors, also with 3 CPUs (16 vs 64 shards), + snapshot oracle.",
-        "technique": "Lean 4 refinement proof (sharded/flat -> abstract map; eval monotonicity) + differential correspondence",
-    },
-    "C03": {
-        "text": "Theorems over the regenerated ErrorKind::or table and load_from_source loop: closed table, class precedence conv > io > not-found > no-default as rank(or a b) = max, or never invents an error, first readable+decodable extension wins for every extension list and every status of the others, the value is decode(stored bytes, that extension), default_value is handed the fold of all errors (class = highest, one of the actual errors), empty list hands NoDefaultValue; at cache level: a failed Compound::load is Error{own id, reason}, and a failed load of any loader without nested loads (every plain Asset, proved for load_from_source) leaves the cache exactly unchanged.",
-        "design_ref": "DESIGN.md §6 C03",
-        "note": "Trusted: Lean kernel; amx translation of ErrorKind::or (pattern arms → first-match function) and of load_from_source (shape-checked template in CPS); the World model eval as transcription of anycache.rs/asset.rs/key.rs. Tie: Gen/Tables.lean regenerated each run + `load` engine (exhaustive status space per asset type + random) diffed against the model + independent oracle from the status vector.",
-        "technique": "Lean 4 proof over definitions regenerated from source + differential correspondence",
-    },
-    "C16": {
-        "text": "Theorems over definitions regenerated from src/utils/bytes.rs and string.rs: every construction path derefs to its input (any length, any Vec capacity incl. 0); for every list of atomic steps of any number of threads (clone, deref, move, drop, the three steps of drop_slow) no use-after-free / double free / layout or capacity mismatch / underflow occurs, count = live handles, every deref through any handle yields the source, each block is freed exactly once and only after the last drop, nothing leaks and the last drop always completes; dealloc layout = alloc layout on both branches (inline layout of 0 = header layout); clone/drop are single RMWs with Release decrement and Acquire before the free; from_utf8 accepts exactly valid UTF-8 and keeps the bytes, valid_up_to is the longest valid prefix; unchecked SharedString literals are fed str/String bytes only; comparisons and hashes go through the slices.",
-        "design_ref": "DESIGN.md §6 C16",
-        "note": "Partial by design: the weak memory model and the allocator are modelled, not proved (orderings are checked against the textbook table). Tie: Gen/Bytes.lean regenerated each run (RMW kinds + orderings, 'was last' test, drop_slow branch / layouts, constructor layouts + header literals, From dispatch, SharedString literal sites, comparison delegation); engine bytes diffs every public path, forced schedules on real threads, strings and the serde visit_* paths against the model, with an accounting global allocator (layout on free, double free, leaks) and an oracle written from the statement.",
-        "technique": "Lean 4 proof over model regenerated from source + differential correspondence with allocator accounting",
-    },
-    "C18": {
-        "text": "Theorems over the definitions regenerated from src/entry.rs: update = (max, grew) for ReloadId and AtomicReloadId, NEVER least, every atomic method is a single RMW primitive, and for every linearisation (= every schedule of any number of threads) final = max offered, told-true iff grew, each growth reported exactly once and never lost. Unbounded in values, number of calls and threads.",
-        "design_ref": "DESIGN.md §6 C18",
-        "note": "Trusted: Lean kernel; amx translation of the method bodies; SC atomics; usize as Nat. Tie: Gen/Rid.lean is regenerated from the source each run and the rid engine diffs the public API (sequential bounded-exhaustive + random + free-running threads) against the model.",
-        "technique": "Lean 4 proof over model regenerated from source + differential correspondence",
-    },
-    "C12": {
-        "text": "Theorems over a transcription of id_of_path / NotifyEventHandler::handle_event / path_of_entry whose decision tables (event kind -> {path, parent}; component kind -> push/pop/skip/fail) are regenerated from src/hot_reloading/watcher.rs: id_of_path inverts path_of for every valid non-root entry under every root (round trip, injectivity), `.` and `x/..` detours do not change the result, paths outside the root or with a non-UTF-8 / dotted component yield nothing, the handler loses its watcher only through a failed send, membership characterisation for several roots. Full-strength statements for the root directory and for the create/rename/delete table are stated and REFUTED with kernel-checked witnesses (F-C12a/b/c reproduced on the real code by the oracle with replays); the `_partial` theorems give the exact batch per kind and depth. Unbounded in depth, names, number of roots and events.",
-        "design_ref": "DESIGN.md section 6 C12",
-        "note": "Trusted: Lean kernel; amx (table extraction); std::path::components(); notify; the OS file system (is_dir is a model parameter). Tie: Gen/Watch.lean regenerated each run; the watch engine feeds the real handler (hook H1) synthetic notify events about real entries of a temp dir and diffs events, id_of_path and FileSystem::path_of against the model; independent oracle from the statement; thorough tier adds real inotify histories through the public FsWatcherBuilder.",
-        "technique": "Lean 4 proof over model with tables regenerated from source + differential correspondence",
-    },
-    "C04": {
-        "text": "Theorems over the executable source models the driver runs: archive index = fold of an interpreter of register_file's effect skeleton (skeletons of zip.rs and tar.rs extracted each run, proved equal to each other and to the interpreted one); for every valid tree and every archive of it (any member order, optional ./) with a member per directory and a non-empty tree the archive view equals the tree's specification view (read, read_dir up to order, exists) and is independent of member order; the full-strength statement is kept and refuted by kernel-checked witnesses (F-C04: d/e/f.x without directory members; the empty archive); Embedded::from over the macro's tables equals the specification; FileSystem view equals it except for kind confusion (refuted + partial); every listed entry is readable; reads do not change the index. Unbounded in tree size, depth, contents and member order.",
-        "design_ref": "DESIGN.md §6 C04",
-        "note": "Trusted: Lean kernel; amx skeleton extraction; HashMap/Path/zip/tar/OS modelled. Tie: Gen/Archive.lean regenerated each run (skeleton equality by decide; the driver indexes with the extracted skeletons) and the src engine diffs read/read_dir/exists of the real FileSystem, Zip, Tar, Embedded built from generated trees against the model, with the generated tree as independent oracle. Known failing classes on the current tree: archive-implicit-dir-missing (F-C04), archive-empty-root-missing, fs-kind-confusion.",
-        "technique": "Lean 4 proof over executable model + skeleton extraction + differential correspondence",
-    },
-    "C11": {
-        "text": "For every source view: load_dir ids are strictly sorted (no duplicates) and are exactly the files listed in d with one of T's extensions; load_rec_dir ids are exactly those of d and of every directory below it reachable through readable directories; a missing directory is an error; a failing child hides nothing but its own subtree (own ids and every loadable sibling's ids stay); iter = ids.map load, iter_cached = the cached ids in order. Unbounded in listing sizes, depth and extension lists.",
-        "design_ref": "DESIGN.md §6 C11",
-        "note": "Trusted: Lean kernel; sort+dedup, cache and source views modelled. Tie: the dir engine runs load_dir / load_rec_dir / iter / iter_cached (and Arc<T>) through AssetCache over the real FileSystem, Zip, Tar, Embedded and a wrapper with unreadable directories, diffs against the model and checks the generated tree as oracle. Shares F-C04 and the empty-archive root with C04.",
-        "technique": "Lean 4 proof over executable model + differential correspondence",
-    },
-}
-
